@@ -166,6 +166,9 @@ func VerifC11_LongStream() {
 	}
 	var frames [][]byte
 	var err error
+	// a framer that stops making progress (e.g. reads into a full buffer forever) loses every later block: the run must
+	// end within a generous multiple (3 000 000) of the ~60 000 instructions a 300 KB stream takes
+	verifStepBudget("C11/long/stream-is-consumed-and-the-framer-terminates", 3000000)
 	verifNoPanic("C11/long/no-panic", func() {
 		err = readTlvStream(rd, func(f []byte) {
 			c := make([]byte, len(f))
@@ -173,6 +176,7 @@ func VerifC11_LongStream() {
 			frames = append(frames, c)
 		}, nil)
 	})
+	verifStepBudget("C11/long/stream-is-consumed-and-the-framer-terminates", 0)
 	verifAssert(err == nil, "C11/long/no-error")
 	verifAssert(len(frames) == len(sizes), "C11/long/frame-count")
 	off := 0
